@@ -1,8 +1,8 @@
 #!/bin/sh
 # development aid: run every thorough tier in sequence, one summary line each
-for i in 16 10 19 07 15 09 12 04 18 01 02 13 05 06 08 11 17 03 20 14; do
+for i in ${ORDER:-16 10 19 15 09 04 18 12 14 20 06 11 13 17 03 05 08 02 07 01}; do
   s=$(date +%s)
-  tools/check.sh C$i thorough > thorough_C$i.log 2>&1
+  nice -n 10 tools/check.sh C$i thorough > thorough_C$i.log 2>&1
   rc=$?
   e=$(date +%s)
   echo "C$i rc=$rc wall=$((e-s))s $(grep SUMMARY thorough_C$i.log | cut -d' ' -f4-12)"
